@@ -304,6 +304,7 @@ pub struct VTree {
     tree: Btree<BtreeWriteAccessor>,
     schema: Schema,
     kind: KeyKind,
+    dump_cache: Option<DumpCache>,
 }
 
 impl Drop for VTree {
@@ -339,7 +340,7 @@ impl VTree {
         let pager: SharedPager = Pager::from_config(config, &path)?.into();
         let root = pager.write().allocate_page::<BtreePage>()?;
         let tree = Btree::new(root, pager.clone(), min_keys, siblings_per_side).with_accessor(BtreeWriteAccessor::new());
-        Ok(VTree { path, pager, tree, schema: schema_for(kind), kind })
+        Ok(VTree { path, pager, tree, schema: schema_for(kind), kind, dump_cache: None })
     }
 
     pub fn root(&self) -> u64 {
@@ -527,7 +528,7 @@ impl VTree {
     pub fn dump(&mut self) -> FileDump {
         let _ = self.finish(Ok(()));
         let root = self.tree.get_root();
-        dump_file(&self.pager, &[(root, self.kind)])
+        dump_file_cached(&self.pager, &[(root, self.kind)], &mut self.dump_cache)
     }
 
     /// The code's own key comparison: `search key a` against a cell holding a tuple with key `b`
@@ -692,6 +693,22 @@ fn parse_btree(bytes: &[u8]) -> Option<RawBtree> {
 /// that are not cached are parsed as B-tree nodes iff a walk from one of the roots reaches them as nodes, and cell keys
 /// are decoded with the schema of the first root whose walk reaches the page (default: the first root's).
 pub fn dump_file(pager: &SharedPager, roots: &[(u64, KeyKind)]) -> FileDump {
+    dump_file_cached(pager, roots, &mut None)
+}
+
+type RawPage = (Option<u8>, Result<Vec<u8>, String>);
+
+/// What the previous dump of the same file saw: lets the next dump reuse the decoded form of every page whose bytes
+/// (and the bytes of every overflow page its cells refer to) did not change. Purely an accelerator.
+#[derive(Default)]
+pub struct DumpCache {
+    raw: BTreeMap<u64, RawPage>,
+    /// per page: (parsed as btree?, key kind used, overflow pages its cells depend on, the decoded page)
+    pages: BTreeMap<u64, (bool, KeyKind, Vec<u64>, PageBody)>,
+}
+
+/// [`dump_file`] with a cache carried from one dump to the next.
+pub fn dump_file_cached(pager: &SharedPager, roots: &[(u64, KeyKind)], cache: &mut Option<DumpCache>) -> FileDump {
     debug_assert!(layout_self_test());
     let (first_free, last_free, total_pages, free_counter, page_size) = {
         let p = pager.read();
@@ -699,7 +716,7 @@ pub fn dump_file(pager: &SharedPager, roots: &[(u64, KeyKind)]) -> FileDump {
         (a, b, c, d, p.page_size())
     };
     // raw bytes of every page
-    let mut raw: BTreeMap<u64, (Option<u8>, Result<Vec<u8>, String>)> = BTreeMap::new();
+    let mut raw: BTreeMap<u64, RawPage> = BTreeMap::new();
     for id in 1..total_pages {
         let r = pager.write().verif_page_bytes(id);
         match r {
@@ -742,17 +759,32 @@ pub fn dump_file(pager: &SharedPager, roots: &[(u64, KeyKind)]) -> FileDump {
         parse_overflow(b)
     };
     let mut pages = Vec::new();
+    let mut new_pages: BTreeMap<u64, (bool, KeyKind, Vec<u64>, PageBody)> = BTreeMap::new();
     for id in 1..total_pages {
         let (ck, bytes) = raw.get(&id).unwrap();
+        let as_btree = *ck == Some(0) || (ck.is_none() && node_kind.contains_key(&id));
+        let kind = node_kind.get(&id).copied().unwrap_or(default_kind);
+        if let Some(c) = cache.as_ref() {
+            if let Some((was_btree, was_kind, deps, body)) = c.pages.get(&id) {
+                if *was_btree == as_btree
+                    && *was_kind == kind
+                    && c.raw.get(&id) == raw.get(&id)
+                    && deps.iter().all(|p| c.raw.get(p) == raw.get(p) && c.pages.get(p).map(|x| x.0) == Some(false) && !node_kind.contains_key(p))
+                {
+                    new_pages.insert(id, (as_btree, kind, deps.clone(), body.clone()));
+                    pages.push(PageDump { id, cached_kind: *ck, body: body.clone() });
+                    continue;
+                }
+            }
+        }
+        let mut deps: Vec<u64> = Vec::new();
         let body = match bytes {
             Err(e) => PageBody::Unreadable(e.clone()),
             Ok(b) => {
-                let as_btree = *ck == Some(0) || (ck.is_none() && node_kind.contains_key(&id));
                 if as_btree {
                     match parse_btree(b) {
                         None => PageBody::Unreadable("btree-header".into()),
                         Some(mut rb) => {
-                            let kind = node_kind.get(&id).copied().unwrap_or(default_kind);
                             let schema = schema_for(kind);
                             for c in &rb.cells {
                                 // reassemble exactly as `Reassembler::reassemble` would
@@ -793,6 +825,7 @@ pub fn dump_file(pager: &SharedPager, roots: &[(u64, KeyKind)]) -> FileDump {
                                 } else {
                                     payload = c.effective.clone();
                                 }
+                                deps.extend(chain.iter().copied());
                                 let decoded = decode_tuple(&payload, &schema, kind);
                                 rb.dump.cells.push(CellDump {
                                     left_child: c.left_child,
@@ -819,6 +852,7 @@ pub fn dump_file(pager: &SharedPager, roots: &[(u64, KeyKind)]) -> FileDump {
                 }
             }
         };
+        new_pages.insert(id, (as_btree, kind, deps, body.clone()));
         pages.push(PageDump { id, cached_kind: *ck, body });
     }
     // free list walk
@@ -840,7 +874,9 @@ pub fn dump_file(pager: &SharedPager, roots: &[(u64, KeyKind)]) -> FileDump {
             }
         }
     }
-    FileDump { page_size, total_pages, first_free, last_free, free_counter, free_walk, free_walk_ok, pages }
+    let out = FileDump { page_size, total_pages, first_free, last_free, free_counter, free_walk, free_walk_ok, pages };
+    *cache = Some(DumpCache { raw, pages: new_pages });
+    out
 }
 
 // ------------------------------------------------------------------------------------------------ pure helpers
